@@ -383,6 +383,8 @@ func echo(n *Nodis, conn *redis.Conn, cmd redis.Command) {
 func quit(n *Nodis, conn *redis.Conn, cmd redis.Command) {
 	execCommand(conn, func() {
 		conn.WriteOK()
+		// the reply has to leave before the socket is closed (the connection loop flushes after the handler)
+		_ = conn.Flush()
 		conn.Network.Close()
 	})
 }
